@@ -169,6 +169,13 @@ func (g *bGen) genCase(version uint32, idx int) *bCase {
 			if rng.Intn(2) == 0 {
 				t.Version = uint32(rng.Intn(7))
 			}
+			// keys may arrive in any valid SEC encoding
+			if rng.Intn(6) == 0 {
+				t.NodeKeyEnc = 1 + rng.Intn(2)
+			}
+			if rng.Intn(6) == 0 {
+				t.MultiSigKeyEnc = 1 + rng.Intn(2)
+			}
 			if o.AuctionType == 1 {
 				t.UnitsFilled = 1
 			}
@@ -924,6 +931,7 @@ func (g *bGen) deviate(c *bCase) {
 				return false
 			}
 			o.NotAllowed = append(o.NotAllowed, t.NodeKey)
+			t.NodeKeyEnc = rng.Intn(3)
 			if rng.Intn(3) == 0 {
 				// both lists set: the allow list wins
 				o.Allowed = append(o.Allowed, t.NodeKey)
@@ -1031,6 +1039,7 @@ func (g *bGen) deviate(c *bCase) {
 			if t == nil {
 				return false
 			}
+			t.NodeKeyEnc = rng.Intn(3)
 			switch rng.Intn(4) {
 			case 0, 1:
 				t.NodeKey = c.Env.OurNode
@@ -1107,6 +1116,27 @@ func (g *bGen) deviate(c *bCase) {
 			t2.Nonce = g.nonce()
 			if rng.Intn(2) == 0 {
 				t2.UnitsFilled = 1
+			}
+			if isAsk {
+				mo.Asks = append(mo.Asks, t2)
+			} else {
+				mo.Bids = append(mo.Bids, t2)
+			}
+			return true
+		}},
+		{"repeat-match-same-nonce", func() bool {
+			// the same counter order listed a second time for our order (no further output,
+			// numbers consistent with the first entry only); the copy may differ in units / key
+			mo, t, isAsk := pickTheir()
+			if t == nil {
+				return false
+			}
+			t2 := *t
+			switch rng.Intn(3) {
+			case 0:
+				t2.UnitsFilled++
+			case 1:
+				t2.MultiSigKey = bKeyHex(bKeyTheirMS + 16 + rng.Intn(4))
 			}
 			if isAsk {
 				mo.Asks = append(mo.Asks, t2)
@@ -1235,8 +1265,13 @@ func (g *bGen) deviate(c *bCase) {
 				a := &c.Env.Accounts[i]
 				if _, _, inv := c.specEndingBalance(a); !inv {
 					s, _ := a.nextScript(bScriptVersion(a.Version), a.Expiry)
-					c.Msg.TxOuts = append(c.Msg.TxOuts, bTxOut{Value: a.Value - 500, Script: s})
-					c.Msg.Diffs = append(c.Msg.Diffs, bDiff{AcctKey: a.Key, EndingBalance: uint64(a.Value - 500),
+					// charged the chain fee of an account without channels (or an arbitrary amount)
+					end := a.Value - specChainFee(0, c.Msg.FeeRate, a.Version).Int64()
+					if rng.Intn(4) == 0 {
+						end = a.Value - 500
+					}
+					c.Msg.TxOuts = append(c.Msg.TxOuts, bTxOut{Value: end, Script: s})
+					c.Msg.Diffs = append(c.Msg.Diffs, bDiff{AcctKey: a.Key, EndingBalance: uint64(end),
 						OutpointIndex: int32(len(c.Msg.TxOuts) - 1), NewVersion: uint32(a.Version)})
 					return true
 				}
@@ -1327,7 +1362,19 @@ func (g *bGen) deviate(c *bCase) {
 				return "02" + k[2:]
 			}
 			ourKey, theirKey := m.ourKey(), m.t.MultiSigKey
-			switch rng.Intn(3) {
+			switch rng.Intn(5) {
+			case 3, 4:
+				// the first 33 bytes of a 65-byte encoding of the counterparty key taken for a key
+				if m.t.MultiSigKeyEnc == 0 {
+					m.t.MultiSigKeyEnc = 1 + rng.Intn(2)
+				}
+				theirKey = hex.EncodeToString(bWireKey(m.t.MultiSigKey, m.t.MultiSigKeyEnc)[:33])
+				sp := bFundScriptOf(false, ourKey, theirKey)
+				if sp == nil || *sp == c.Msg.TxOuts[idx].Script {
+					return false
+				}
+				c.Msg.TxOuts[idx].Script = *sp
+				return true
 			case 0:
 				ourKey = neg(ourKey)
 			case 1:
@@ -1436,15 +1483,15 @@ func (g *bGen) deviate(c *bCase) {
 			"market-duration", "move-order-to-other-market", "same-nonce-in-two-markets", "our-rate", "our-duration", "our-auction-type",
 			"our-side", "our-unfulfilled", "our-min-match", "allow-list", "deny-list", "their-side",
 			"their-duration", "their-duration-old-version", "their-order-version", "their-auction-type", "their-rate", "their-node-key", "their-units", "extra-match",
-			"drop-match", "unknown-our-nonce"},
+			"drop-match", "repeat-match-same-nonce", "unknown-our-nonce"},
 		"C02": {"fee-rate", "exec-base", "exec-rate", "clearing-price", "our-self-balance", "their-self-balance",
 			"their-units", "diff-balance", "diff-balance-and-output", "diff-state", "diff-index", "diff-new-expiry",
 			"diff-new-version", "diff-acct-key", "diff-drop", "diff-duplicate-plain", "diff-uninvolved-account",
 			"acct-value", "acct-version", "acct-expiry", "acct-batch-key", "acct-secret", "acct-auctioneer-key",
-			"out-value", "out-script", "out-wrong-script-kind", "our-acct-key"},
+			"out-value", "out-script", "out-wrong-script-kind", "our-acct-key", "repeat-match-same-nonce"},
 		"C03": {"their-order-version", "out-value-alt-balance", "out-script-related-keys", "our-chan-type", "their-chan-type", "our-key-index", "our-sidecar", "their-multisig-key",
 			"our-self-balance", "their-self-balance", "their-units", "out-value", "out-script", "out-swap-scripts",
-			"out-drop", "out-wrong-script-kind", "extra-match"},
+			"out-drop", "out-wrong-script-kind", "extra-match", "repeat-match-same-nonce", "their-node-key"},
 	}
 	pick := func() site {
 		if f := focus[g.prop]; len(f) > 0 && rng.Intn(2) == 0 {
